@@ -123,7 +123,12 @@ def run(ctx):
         # Int over all three tuples, the other types (same map code, other datum constructors) over two
         trans, nontriv = graph_stage(ctx, binary, ALL_TYPES, maxts=1, exps=(1,), valbound=1, label="quick",
                                      wide=("Int",), random_walks=60)
-        consts = {"tuples": 3, "tuples_for_non_Int_types": 2, "bad_tuples": 2, "MaxTs": 1, "Expiries": [1], "ValBound": 1}
+        # two timestamps for the types whose setters differ from Int's (an update with an unchanged value must still
+        # move the timestamp), over two tuples
+        t2, n2 = graph_stage(ctx, binary, ("String", "Float", "Buckets"), maxts=2, exps=(1,), valbound=1, label="quick-ts", wide=(), random_walks=20)
+        trans, nontriv = trans + t2, nontriv + n2
+        consts = {"tuples": 3, "tuples_for_non_Int_types": 2, "bad_tuples": 2, "MaxTs": "1 (2 for String/Float/Buckets over two tuples)",
+                  "Expiries": [1], "ValBound": 1}
     wsteps = walk_stage(ctx, binary, 100, 80) if ctx.thorough else 0
     if ctx.thorough:
         # model only: two expiry values as well; and once with coverage: no action may be vacuous
